@@ -178,7 +178,14 @@ def exp_props(fl, flags, sort):
 
 
 def check_class(rec, cls, fl, tag, hdesc):
-    case = {"hierarchy": hdesc, "class_level": tag[0], "first_use": tag[1]}
+    # which CALL comes first matters as well (the generated accessors install themselves during the first call and hand it
+    # over): for every other class the sorted / flagged variants are called before the plain ones
+    import zlib
+
+    sorted_first = zlib.crc32(repr((hdesc, list(tag))).encode()) % 2 == 1   # a function of the case, so that a replay repeats it
+    sorts = (True, False) if sorted_first else (False, True)
+    bools = (False, True) if sorted_first else (True, False)
+    case = {"hierarchy": hdesc, "class_level": tag[0], "first_use": tag[1], "sorted_calls_first": sorted_first}
     own = cls.__dataclass_fields__
     child_names = [n for n, s in fl if s in SHAPES and SHAPES[s][0] != "prop"]
 
@@ -201,7 +208,10 @@ def check_class(rec, cls, fl, tag, hdesc):
         fs = list(cls.get_property_fields(*flags))
         if [f.name for f in fs] != exp or any(f is not own[f.name] for f in fs):
             bad("get_property_fields|" + _flagkind(fl, flags, [f.name for f in fs], exp), f"flags(skip_id,origin,content_id,non_compare,non_init)={flags}: {[f.name for f in fs]}, spec says {exp}", flags=list(flags))
-    for vname, kw in instance_variants(fl):
+    variants = list(instance_variants(fl))
+    if sorted_first:
+        variants.reverse()   # the first instance ever queried has children in every child field
+    for vname, kw in variants:
         NODE_REGISTRY.clear()
         try:
             inst = cls(**kw)
@@ -209,8 +219,8 @@ def check_class(rec, cls, fl, tag, hdesc):
             bad("instantiate", f"{type(e).__name__}: {str(e)[:200]}", variant=vname)
             continue
         rec.outcome(f"instance:{vname}")
-        for flags in itertools.product((True, False), repeat=5):
-            for sort in (False, True):
+        for flags in itertools.product(bools, repeat=5):
+            for sort in sorts:
                 ev()
                 exp = exp_props(fl, flags, sort)
                 got = list(inst.get_properties(*flags, sort_keys=sort))
@@ -224,7 +234,7 @@ def check_class(rec, cls, fl, tag, hdesc):
         d = inst.to_properties_dict()
         if list(d) != exp or any(d[k] is not getattr(inst, k) for k in d):
             bad("to_properties_dict", f"{list(d)}, spec says {exp}", variant=vname)
-        for sort in (False, True):
+        for sort in sorts:
             order = sorted(child_names) if sort else child_names
             exp_nodes, exp_wf, exp_iter = [], [], []
             for n in order:
